@@ -9,7 +9,7 @@ setting :=  `<idx> i1|i2 <nat>` | `<idx> s x<hex>` | `<idx> b x<hex>` | `<idx> n
 ops
   `gen <payload>`  the generated tree            `ok pv=T tree <tree>` | `exc <E>`
   `rt  <payload>`  printable?, dictionary of the re-parsed text   `ok text=T reparse=T dict <dict>` | `ok text=F` | `exc <E>`
-  `chk <payload>`  the property instance         `wf=F` | `wf=T total=<b> valid=<b> faithful=<b>`
+  `chk <payload>`  the property instance         `wf=F` | `wf=T total=<b> valid=<b> faithful=<b> noempty=<b>`
 tree  := prefix form, node `n<hex label>:<arity>` (`nN:<arity>` for the label None), tokens `o<hex>` / `s<hex>`
 dict  := entries `<hex key>=<v>;<v>…` sorted by key; v := `r<hex>` | `p<hex>,<hex>` | `t<hex>(,<hex>|,E)*`
 -/
@@ -156,9 +156,9 @@ def step : List String → String
       if !WellFormedCfg cfg then "wf=F"
       else
         match fromBeaconConfig cfg uris with
-        | .error _ => "wf=T total=F valid=F faithful=F"
+        | .error _ => "wf=T total=F valid=F faithful=F noempty=F"
         | .ok t =>
-          s!"wf=T total=T valid={showBool (printable t)} faithful={showBool (specDict t.reparsed == expectedDict cfg uris)}"
+          s!"wf=T total=T valid={showBool (printable t)} faithful={showBool (specDict t.reparsed == expectedDict cfg uris)} noempty={showBool (printable t && noEmptyBlocks t.kids)}"
   | _ => "bad-op"
 
 end C13
